@@ -26,6 +26,7 @@ class AXIMaster:
         self.b_i = self.ar_i = self.r_i = 0
         self.log = {"aw": [], "w": [], "b": [], "ar": [], "r": []}
         self.offered = {"aw": [], "w": [], "ar": []}      # first cycle in which each token was visible
+        self.aw_lead = 0
         self.b_ready = self.r_ready = 0
         self.r_cur = []
         self.r_bursts = []                   # per completed read: list of (cycle, resp, data, id)
@@ -64,6 +65,7 @@ class AXIMaster:
                 self.r_i += 1
         g = rng if self.garbage else None
         nw = len(self.writes)
+        self.aw_lead -= 1
         if self.aw.offering is None:
             i = self.aw_off
             can = i < nw and (i - self.b_i) < self.max_out
@@ -73,13 +75,14 @@ class AXIMaster:
                 t = self.writes[i]
                 self.aw.offer(w, (t["addr"], t["burst"], t["len"], t["size"], t.get("id", 0)))
                 self.aw_off += 1
+                self.aw_lead = rng.randint(1, 6) if self.order == "aw_first" else 0
             else:
                 self.aw.idle(w, g)
         if self.w.offering is None:
             i = self.w_txn
             can = i < nw and (i - self.b_i) < self.max_out
             if can and self.order == "aw_first":
-                can = self.aw_i > i
+                can = self.aw_off > i and self.aw_lead <= 0   # AW[i] offered some cycles earlier (never waits for AWREADY)
             if can and self.order == "together":
                 can = self.aw_off > i
             if can and (coop or rng.random() < self.p_w):
